@@ -25,6 +25,10 @@ use std::borrow::Cow;
 use std::convert::TryFrom;
 use std::panic::{catch_unwind, AssertUnwindSafe};
 
+// composite glyphs and the cmap writers (case kinds cg, cms, cmsrd, cmapv, cmaprd, filec)
+#[path = "../c15_glyfcmap.rs"]
+mod gc;
+
 fn werr(e: &WriteError) -> &'static str {
     match e {
         WriteError::BadValue => "BadValue",
@@ -771,7 +775,7 @@ fn run_glyphrd(p: &[&str]) -> String {
     let d = unhex(p[2]);
     match ReadScope::new(&d).read::<Glyph<'_>>() {
         Err(e) => format!("r=err:{}", perr(&e)),
-        Ok(Glyph::Composite(_)) => "r=composite".to_string(),
+        Ok(Glyph::Composite(g)) => gc::run_cgrd(&d, g),
         Ok(Glyph::Empty(_)) => "r=empty".to_string(),
         Ok(Glyph::Simple(g)) => {
             let r = glyph_show(&g);
@@ -1237,6 +1241,12 @@ fn run(input: &str) -> String {
         "dict" => run_dict(&p),
         "dictw" => run_dictw(&p),
         "filed" => run_filed(&p),
+        "cg" => gc::run_cg(&p),
+        "cms" => gc::run_cms(&p),
+        "cmsrd" => gc::run_cmsrd(&p),
+        "cmapv" => gc::run_cmapv(&p),
+        "cmaprd" => gc::run_cmaprd(&p),
+        "filec" => gc::run_filec(&p, &std::env::var("VERIF_REPO").unwrap_or_else(|_| "/repo".to_string())),
         _ => panic!("kind {}", p[0]),
     }));
     match res {
@@ -1686,6 +1696,19 @@ fn gen_dict(rng: &mut Rng) -> String {
 }
 
 fn gen(rng: &mut Rng) -> String {
+    // composite glyphs and cmap: 24% of the cases
+    let k = rng.below(100);
+    if k < 24 {
+        let mode = build_mode();
+        return match k {
+            0..=5 => gc::gen_cg(rng, mode),
+            6..=9 => gc::gen_cgrd(rng, mode, &mut mutate),
+            10..=15 => gc::gen_cms(rng, mode),
+            16..=19 => gc::gen_cmsrd(rng, mode, &mut mutate),
+            20 | 21 => gc::gen_cmapv(rng, mode),
+            _ => gc::gen_cmaprd(rng, mode, &mut mutate),
+        };
+    }
     if rng.below(100) < 30 {
         return gen_dict(rng);
     }
